@@ -105,7 +105,7 @@ impl ZoneStore {
         trace!("store resolve");
 
         // Check cache first (short lock scope)
-        {
+        let invalidations = {
             let mut cache = self.cache.lock().await;
             if let Some(rset) = cache.resolve(pubkey, name, record_type) {
                 debug!(
@@ -114,13 +114,22 @@ impl ZoneStore {
                 );
                 return Ok(Some(rset));
             }
-        }
+            cache.invalidations
+        };
 
         // Check persistent store
         if let Some(packet) = self.store.get(pubkey).await? {
             trace!(packet_timestamp = ?packet.timestamp(), "store hit");
             let mut cache = self.cache.lock().await;
-            let result = cache.insert_and_resolve(&packet, name, record_type);
+            let result = if cache.invalidations == invalidations {
+                cache.insert_and_resolve(&packet, name, record_type)
+            } else {
+                // A publish invalidated the cache since we checked it, so the packet we read
+                // may already be outdated: answer from it, but do not cache it.
+                CachedZone::from_signed_packet(&packet)
+                    .anyerr()
+                    .map(|zone| zone.resolve(name, record_type))
+            };
             return match result {
                 Ok(Some(rset)) => {
                     debug!(
@@ -211,6 +220,11 @@ struct ZoneCache {
     /// so we don't cache stale entries indefinitely.
     #[debug("dht_cache")]
     dht_cache: TtlCache<PublicKeyBytes, CachedZone>,
+    /// Number of calls to [`Self::remove`] so far.
+    ///
+    /// Lets a lookup detect that a publish went through between its cache check and its
+    /// cache fill.
+    invalidations: u64,
     #[debug("metrics")]
     metrics: Arc<Metrics>,
 }
@@ -222,6 +236,7 @@ impl ZoneCache {
         Self {
             cache,
             dht_cache,
+            invalidations: 0,
             metrics,
         }
     }
@@ -292,6 +307,7 @@ impl ZoneCache {
     }
 
     fn remove(&mut self, pubkey: &PublicKeyBytes) {
+        self.invalidations = self.invalidations.wrapping_add(1);
         self.cache.pop(pubkey);
         self.dht_cache.remove(pubkey);
         self.metrics.cache_zones.set(self.cache.len() as i64);
